@@ -153,9 +153,12 @@ def gen_cases(ctx, n_two_good, n_pairs, n_free):
         base = samegen.gen_header(rng) if rng.chance(2, 3) else b"NNNN"
         bs = []
         for _ in range(nb):
-            r = rng.below(4)
+            r = rng.below(5)
+            # r == 4: the parity (eighth) bit set on a scattering of bytes -- in SEVERAL bursts of the same set, so that some byte
+            # positions have it set in two or three bursts at once
             bs.append(base if r == 0 else samegen.flip_bits(rng, base, rng.range(0, 6)) if r == 1
-                      else samegen.mutate(rng, base, rng.range(1, 3)) if r == 2 else rng.bytes(rng.range(0, 300)))
+                      else samegen.mutate(rng, base, rng.range(1, 3)) if r == 2 else rng.bytes(rng.range(0, 300)) if r == 3
+                      else bytes((c | 0x80) if rng.chance(1, 3) else c for c in base))
         cases.append(("combine " + " ".join(hx(b) for b in bs) if bs else "combine", "free", (None, None, bs)))
         cases.append(("estimate " + " ".join(hx(b) for b in bs) if bs else "estimate", "estimate", (None, None, bs)))
     return cases, dist
